@@ -29,7 +29,11 @@ Templates ==
      ProcessOperation    |-> {"create", "update", "recover", "deactivate", "create_disabled"},
      ParseJWS            |-> {"jws"},
      VerifyJWS           |-> {"jws", "jwk"},
-     MarshalCanonical    |-> {"create", "document"},
+     \* (the JWK decoder itself, on JSON text: members may be missing or null there - the typed JWK of the parser always has them)
+     ParseJWK            |-> {"jwk", "jwk_ed", "jwk_k1"},
+     \* (escapes: strings and names full of characters that are written as \u escapes; every prefix of the text is
+     \* canonicalized too, in a buffer without spare capacity)
+     MarshalCanonical    |-> {"create", "document", "escapes"},
      \* (patch_keys_ed: keys of the Ed25519 suites, given as JWK and as base58; patch_keys_multibase: an Ed25519 2020 key
      \* given the way resolved documents show it - as publicKeyMultibase, which validation does not admit today)
      PatchFromBytes      |-> {"patch_keys", "patch_jsonpatch", "patch_replace"},
